@@ -141,7 +141,7 @@ class C03(core.Check):
                                        'e:mid-line/same-line', 'last:byte', 'last:label', 'last:muted', 'last:zero-length',
                                        'last:org', 'fill!=0', 'predefined-data', 'muted-region', 'stale-longer-image-present', 'mute-around-include',
                                        's:below-redefined-global', 'e:above-redefined-global', 'e:beyond-address-space',
-                                       'muted-embedded-string', 'surplus-unmute-before-a-muted-region', 'mute-change-inside-a-conditional-branch']}
+                                       'muted-embedded-string', 'surplus-unmute-before-a-muted-region', 'mute-change-inside-a-conditional-branch', 'explicit-end-and-no-byte-emitted']}
 
     def make_case(self, isa, lines, res, lk, s, e, fill, tags):
         fn, text = isamod.render_isa(isa, 'json')
@@ -242,6 +242,20 @@ class C03(core.Check):
                        'meta': {'expected': exp_.hex(), 'kind': 'ACCEPT', 'why': '', 'window': [0, None, fill],
                                 'M': {str(a_): v_ for a_, v_ in enumerate(out_) if v_ is not None}},
                        'tags': ['s:0', 'e:absent', 'muted-region', 'mute-change-inside-a-conditional-branch'] + (['fill!=0'] if fill else [])}
+        # an explicit window over a program that emits no byte at all (everything muted, names only, an empty file): the
+        # image is the window, filled
+        for k_, body in enumerate([['#mute', '.org $10', '.byte 1, 2, 3', 'ram_top:', '.fill 4, 9'], ['K_ONLY = 5', 'lbl_only:'], [''],
+                                   ['; nothing here'], ['#mute', '.byte 1', '#unmute', '#mute', '.byte 2'], ['#if 0', '.byte 1', '#endif'],
+                                   ['.org $14', 'here:', '.zero 0', '.fill 0, 1']]):
+            for s_, e_ in ((16, 31), (0, 0), (0, 7), (18, 18), (None, 5)):
+                for fill in (0xEA, 0):
+                    n_ = e_ - (s_ or 0) + 1
+                    argv = ['compile', '-c', fn_i, 'p.asm', '-o', 'out.bin', '-e', str(e_)] + (['-s', str(s_)] if s_ is not None else []) + \
+                        (['-f', str(fill)] if fill else [])
+                    yield {'runs': [{'files': {fn_i: text_i, 'p.asm': '\n'.join(body) + '\n'}, 'argv': argv, 'probes': ['steps', 'files'], 'step_limit': 200000}],
+                           'meta': {'expected': (bytes([fill]) * n_).hex(), 'kind': 'ACCEPT', 'why': '', 'window': [s_ or 0, e_, fill], 'M': {}},
+                           'tags': ['s:' + ('absent' if s_ is None else 'given'), 'e:given', 'explicit-end-and-no-byte-emitted'] + (['fill!=0'] if fill else []) +
+                                   (['muted-region'] if '#mute' in body else [])}
         # windows that reach outside a redefined GLOBAL zone, or beyond a small address space: the window is what the
         # command line says, whatever the zones are
         for ab, gs, ge in [(8, 0x10, 0xEF), (8, 0, 0x7F), (8, 0x20, 0xFF), (4, 0, 15), (5, 2, 29), (16, 0x100, 0xFFF)]:
